@@ -977,6 +977,44 @@ func expiryEdge(seed int64, rounds int) (sig, what string, stall time.Duration) 
 	return "", "", 0
 }
 
+// neverExpiryWait (real clock): the record carries an expiry centuries away (a "never expires" sentinel, beyond
+// what a time.Duration can express). A waiter given its current version must stay parked - in particular it must
+// not report ErrNotExist for the live, untouched key - and a later overwrite must wake it with nil.
+func neverExpiryWait(backend string, s kvs.Storage, at time.Time) (sig, what, inconclusive string) {
+	bg := context.Background()
+	r0, err := s.Put(bg, kvs.Record{Key: "nv", Value: []byte("0"), ExpiresAt: &at})
+	if err != nil {
+		return "", "", backend + " Put: " + err.Error()
+	}
+	ctx, cancel := context.WithCancel(bg)
+	defer cancel()
+	res := make(chan error, 1)
+	go func() { res <- s.WaitForVersionChange(ctx, "nv", r0.Version) }()
+	select {
+	case e := <-res:
+		switch hist.Classify(e) {
+		case hist.ENotExist:
+			return backend + "/wait/invented-not-exist", fmt.Sprintf("the record expires at %v; a waiter given its current version returned ErrNotExist although the key exists and nobody touched it", at.Format(time.RFC3339)), ""
+		case hist.ENil:
+			return backend + "/wait/returned-without-change", fmt.Sprintf("the record expires at %v; a waiter given its current version returned nil although nothing changed", at.Format(time.RFC3339)), ""
+		}
+		return backend + "/wait/wrong-result", fmt.Sprintf("the record expires at %v; a waiter given its current version returned %v with a live context", at.Format(time.RFC3339), e), ""
+	case <-time.After(80 * time.Millisecond):
+	}
+	if _, err := s.Put(bg, kvs.Record{Key: "nv", Value: []byte("1")}); err != nil {
+		return "", "", backend + " Put: " + err.Error()
+	}
+	select {
+	case e := <-res:
+		if e != nil {
+			return backend + "/wait/wrong-result-after-change", fmt.Sprintf("a waiter on a record expiring at %v returned %v after the key was overwritten", at.Format(time.RFC3339), e), ""
+		}
+	case <-time.After(60 * time.Second):
+		return "", "", "never-expiry waiter did not return 60 s after the change"
+	}
+	return "", "", ""
+}
+
 // pollFault (Redis): one poll of a parked waiter is answered with a server error while nothing changes and the
 // context is alive. Whatever the waiter does with the error (report it, or go on polling), it must not return nil
 // ("the key exists with a different version") nor ErrNotExist nor the context's error.
@@ -1096,7 +1134,7 @@ func TestCheck(t *testing.T) {
 		}
 		run.Finish(t)
 	})
-	run.Rule("scripted: every legal script to the depth bound over {start waiter (key1 cur/stale/unknown, key2 cur; <=3 alive), cancel waiter i, cancel+Put+newcomer without quiescence in between, start+Put without quiescence, Put k1/k2, PutMany k1 / k1+k2, CAS ok, CAS conflict, Delete k1/k2, Create, Put with an expiry, Put of an already expired record, clock +1 h (nobody touches the store)}; one waiter in three carries a context deadline 1000 virtual hours ahead, one in three a deadline 10 virtual minutes ahead (earlier than any record expiry: it gets the context's error when the clock moves); event ticklist: ListKeys runs half a millisecond after the first expiries of the hour; expiry edge (inmem, real clock): trains of 12 waiters, one key each, started within microseconds around the expiry of their records - 25 ms later all have returned and the waiter table is empty (this part runs as a second pass built without the race detector, whose slow-down hides such windows); Redis poll fault: the 1st/2nd/5th/9th poll of a parked waiter is answered with a server error - the waiter may report it or go on, but must not return nil, ErrNotExist or the context's error from 2 initial states, in a synctest bubble; after EVERY event quiescence, then each waiter must be exactly parked / nil / ErrNotExist / ctx error per model and the waiter table must equal the parked set; free-running: 3 writers + 6 waiters + cancellers on 2 keys per round, waiter returns checked by porcupine as read-like operations, final mutation must release all; burst rounds: 4-16 waiters on the current version start together with one mutation and must all return; Redis long-park: a waiter parked 3.2 s (6.5 s thorough) must notice the change within 1 s. distinct = distinct (event kind, parked-waiter multiset, number of present keys) classes observed at quiescent points + distinct free-running rounds")
+	run.Rule("scripted: every legal script to the depth bound over {start waiter (key1 cur/stale/unknown, key2 cur; <=3 alive), cancel waiter i, cancel+Put+newcomer without quiescence in between, start+Put without quiescence, Put k1/k2, PutMany k1 / k1+k2, CAS ok, CAS conflict, Delete k1/k2, Create, Put with an expiry, Put of an already expired record, clock +1 h (nobody touches the store)}; one waiter in three carries a context deadline 1000 virtual hours ahead, one in three a deadline 10 virtual minutes ahead (earlier than any record expiry: it gets the context's error when the clock moves); event ticklist: ListKeys runs half a millisecond after the first expiries of the hour; expiry edge (inmem, real clock): trains of 12 waiters, one key each, started within microseconds around the expiry of their records - 25 ms later all have returned and the waiter table is empty (this part runs as a second pass built without the race detector, whose slow-down hides such windows); waiters on records whose expiry is centuries away (9999-12-31, now+300 y, 2300, now+100 y) stay parked and are woken by an overwrite; Redis poll fault: the 1st/2nd/5th/9th poll of a parked waiter is answered with a server error - the waiter may report it or go on, but must not return nil, ErrNotExist or the context's error from 2 initial states, in a synctest bubble; after EVERY event quiescence, then each waiter must be exactly parked / nil / ErrNotExist / ctx error per model and the waiter table must equal the parked set; free-running: 3 writers + 6 waiters + cancellers on 2 keys per round, waiter returns checked by porcupine as read-like operations, final mutation must release all; burst rounds: 4-16 waiters on the current version start together with one mutation and must all return; Redis long-park: a waiter parked 3.2 s (6.5 s thorough) must notice the change within 1 s. distinct = distinct (event kind, parked-waiter multiset, number of present keys) classes observed at quiescent points + distinct free-running rounds")
 	run.Assume("scripted part: virtual time that only moves at the explicit clock event")
 	run.Assume("free-running 'never misses' uses a 20 s watchdog against a healthy release time of microseconds (inmem) / <=100 ms (Redis polling)")
 
@@ -1169,6 +1207,34 @@ func TestCheck(t *testing.T) {
 		}(park)
 	}
 	defer lpwg.Wait()
+	for i, at := range []time.Time{time.Date(9999, 12, 31, 23, 59, 59, 0, time.UTC), time.Now().AddDate(300, 0, 0), time.Date(2300, 1, 1, 0, 0, 0, 0, time.UTC), time.Now().AddDate(100, 0, 0)} {
+		for _, backend := range []string{"inmem", "redis"} {
+			lpwg.Add(1)
+			go func(i int, at time.Time, backend string) {
+				defer lpwg.Done()
+				var s kvs.Storage = inmem.New()
+				if backend == "redis" {
+					rs, err := kvmodel.NewRedisServer()
+					if err != nil {
+						run.Inconclusive("miniredis: " + err.Error())
+						return
+					}
+					defer rs.Close()
+					s = rs.S
+				}
+				sig, what, inc := neverExpiryWait(backend, s, at)
+				if inc != "" {
+					run.Inconclusive(inc)
+					return
+				}
+				run.Eval(1)
+				run.Add("never_expiry_wait_scenarios_"+backend, 1)
+				if sig != "" {
+					run.Violation(sig, what, map[string]any{"scenario": "never-expiry-wait", "backend": backend, "expires_at": at.Format(time.RFC3339)})
+				}
+			}(i, at, backend)
+		}
+	}
 	for _, nth := range []int64{1, 2, 5, 9} {
 		lpwg.Add(1)
 		go func(nth int64) {
